@@ -82,7 +82,7 @@ UNITS = [{
     'fns': {
         'impl Vector::new': {'props': V + ['C06'], 'ensures': [(V, inst(NEW_MODEL, 'm_view', x='vector'))]},
         'impl Vector::len': {'props': V + ['C06'], 'ensures': [(V, inst(LEN_MODEL, 'm_view', v='self'))]},
-        'impl Vector::is_empty': {'props': V + ['C06'], 'ensures': [(V, 'r == (m_view(*self).len() == 0)')]},
+        'impl Vector::is_empty': {'props': ['C06'], 'ensures': [(['C06'], 'r == (m_view(*self).len() == 0)')]},  # no builtin under contract calls it
         'impl Vector::get': {'props': V + ['C06'], 'ensures': [(V, inst(t, 'm_view', v='self', i='index')) for t in GET_MODEL]},
         'impl Vector::clone_vector': {
             'props': V + ['C06'],
